@@ -1,0 +1,54 @@
+//go:build verif
+
+// Read-only accessor of the metadata index state used by the verification harness in
+// /verif (build tag "verif"). Nothing here is compiled into normal builds.
+
+package comet
+
+import "github.com/RoaringBitmap/roaring"
+
+// VerifMetaBSI is a copy of one bit-sliced index: the existence bitmap and, per bit
+// position, the ids whose bit is set (read back through MarshalBinary, the BSI keeps
+// its slices private).
+type VerifMetaBSI struct {
+	BitCount  int
+	Existence []uint32
+	Slices    [][]uint32
+}
+
+// VerifMetaState is a deep copy of RoaringMetadataIndex.
+type VerifMetaState struct {
+	AllDocs     []uint32
+	Categorical map[string][]uint32
+	Numeric     map[string]VerifMetaBSI
+}
+
+// VerifState returns a snapshot of the index state under the read lock.
+func (idx *RoaringMetadataIndex) VerifState() (VerifMetaState, error) {
+	idx.mu.RLock()
+	defer idx.mu.RUnlock()
+	st := VerifMetaState{
+		AllDocs:     idx.allDocs.ToArray(),
+		Categorical: make(map[string][]uint32, len(idx.categorical)),
+		Numeric:     make(map[string]VerifMetaBSI, len(idx.numeric)),
+	}
+	for k, bm := range idx.categorical {
+		st.Categorical[k] = bm.ToArray()
+	}
+	for f, b := range idx.numeric {
+		data, err := b.MarshalBinary()
+		if err != nil {
+			return st, err
+		}
+		d := VerifMetaBSI{BitCount: b.BitCount(), Existence: b.GetExistenceBitmap().ToArray()}
+		for i := 1; i < len(data); i++ {
+			bm := roaring.New()
+			if err := bm.UnmarshalBinary(data[i]); err != nil {
+				return st, err
+			}
+			d.Slices = append(d.Slices, bm.ToArray())
+		}
+		st.Numeric[f] = d
+	}
+	return st, nil
+}
